@@ -2,10 +2,14 @@
 \* Trace specification for C13: the bag of solutions (resp. the ASK answer) returned through SparqlWrapper must be the one
 \* the SPARQL 1.1 algebra of Sparql.tla defines; unsupported operators must answer NotImplemented; nothing panics.
 EXTENDS Sparql, Json, IOUtils
-\* the other readings of the two extension points
-Alt1 == INSTANCE Sparql WITH LangCmpExt <- ~LangCmpExt, SameLitExt <- SameLitExt
-Alt2 == INSTANCE Sparql WITH LangCmpExt <- LangCmpExt, SameLitExt <- ~SameLitExt
-Alt3 == INSTANCE Sparql WITH LangCmpExt <- ~LangCmpExt, SameLitExt <- ~SameLitExt
+\* the other readings of the three extension points
+Alt1 == INSTANCE Sparql WITH LangCmpExt <- LangCmpExt, SameLitExt <- SameLitExt, IllDtExt <- ~IllDtExt
+Alt2 == INSTANCE Sparql WITH LangCmpExt <- LangCmpExt, SameLitExt <- ~SameLitExt, IllDtExt <- IllDtExt
+Alt3 == INSTANCE Sparql WITH LangCmpExt <- LangCmpExt, SameLitExt <- ~SameLitExt, IllDtExt <- ~IllDtExt
+Alt4 == INSTANCE Sparql WITH LangCmpExt <- ~LangCmpExt, SameLitExt <- SameLitExt, IllDtExt <- IllDtExt
+Alt5 == INSTANCE Sparql WITH LangCmpExt <- ~LangCmpExt, SameLitExt <- SameLitExt, IllDtExt <- ~IllDtExt
+Alt6 == INSTANCE Sparql WITH LangCmpExt <- ~LangCmpExt, SameLitExt <- ~SameLitExt, IllDtExt <- IllDtExt
+Alt7 == INSTANCE Sparql WITH LangCmpExt <- ~LangCmpExt, SameLitExt <- ~SameLitExt, IllDtExt <- ~IllDtExt
 Rec == ndJsonDeserialize(IOEnv.TRACE)
 VARIABLE l
 SetOfSeq(s) == {s[i] : i \in 1..Len(s)}
@@ -33,7 +37,7 @@ JudgeWith(e, Ans(_, _)) ==
                     ELSE IF got = exp THEN "ok"
                     ELSE IF SetOfSeq(e.res.rows) = SetOfSeq(Rows(sols, e.res.vars)) THEN "multiplicities-differ"
                     ELSE IF \E r \in SetOfSeq(e.res.rows) : r \notin DOMAIN exp THEN "spurious-solution" ELSE "missing-solution"
-Judge(e) == LET v == JudgeWith(e, Answer) IN IF v = "ok" THEN v ELSE IF JudgeWith(e, Alt1!Answer) = "ok" \/ JudgeWith(e, Alt2!Answer) = "ok" \/ JudgeWith(e, Alt3!Answer) = "ok" THEN "ok" ELSE v
+Judge(e) == LET v == JudgeWith(e, Answer) IN IF v = "ok" THEN v ELSE IF JudgeWith(e, Alt1!Answer) = "ok" \/ JudgeWith(e, Alt2!Answer) = "ok" \/ JudgeWith(e, Alt3!Answer) = "ok" \/ JudgeWith(e, Alt4!Answer) = "ok" \/ JudgeWith(e, Alt5!Answer) = "ok" \/ JudgeWith(e, Alt6!Answer) = "ok" \/ JudgeWith(e, Alt7!Answer) = "ok" THEN "ok" ELSE v
 Init == l = 1
 Next == /\ l <= Len(Rec) /\ l' = l + 1
         /\ LET v == Judge(Rec[l]) IN IF v = "ok" THEN TRUE ELSE PrintT(<<"MISMATCH", l, v>>)
